@@ -84,10 +84,14 @@ CHECKS["C07"] = ("docspace", "model_checking",
    "bounded exhaustive exploration: all heading-level sequences over levels 1-6 up to the bound (ATX, setext, with and without bodies), the block-grammar forests with nested / mixed lists, multi-block items and quotes, and ordered lists around the 9/10 and 99/100 padding thresholds are formatted by the real code; an independent outline extractor must give the same structure (heading order and text, container path and nearest preceding heading of every block, list kinds and item counts) and the output's document-level heading levels must be well-nested and unchanged when the input's were",
    "heading levels inside quotes / items are not compared; link texts inside headings may be refreshed",
    "explicit-state enumeration of the input space against the implementation with a reference-model oracle", "§5 C07")
+CHECKS["C19"] = ("fsfault", "fault_enumeration",
+   "exhaustive fault enumeration on the real `iwe` binary (built from /repo's working tree): for every directory tree over a file-name / content alphabet (nested directories, names with spaces and non-ASCII, non-note files, x.md.md, config files) a fault-free traced run yields the list of file-affecting syscalls; then every index k of every syscall kind x {ENOSPC (thorough: EDQUOT), SIGKILL at syscall entry} is injected with strace, and every byte limit L in 0..=max note length is imposed with RLIMIT_FSIZE (SIGXFSZ default and ignored) - a genuinely torn write at every offset. Fault-free: every note equals the in-memory export, written where it was read, nothing else created / deleted / touched (mtime). Faulted: every note file holds its complete old or its complete new text",
+   "crash model = syscall boundary + byte-granular torn writes, not power loss; write order follows HashMap iteration, so (file, phase) coverage is read from the traces and runs repeat until covered (coverage in the evidence counters)",
+   "exhaustive fault-point enumeration (strace error/signal injection at every syscall index, RLIMIT_FSIZE at every byte offset) against the implementation", "§5 C19")
 NOT_APPLICABLE = {}
 manifest = {
  "version": 1,
- "setup_cmd": "cd /verif/mc && CARGO_NET_OFFLINE=true CARGO_TARGET_DIR=/verif/target cargo build --release --offline",
+ "setup_cmd": "cd /verif/mc && CARGO_NET_OFFLINE=true CARGO_TARGET_DIR=/verif/target cargo build --release --offline && CARGO_NET_OFFLINE=true CARGO_TARGET_DIR=/verif/target/iwe-bin cargo build --release --offline --locked --manifest-path /repo/Cargo.toml -p iwe",
  "hooks": {
    "guard": "cargo feature `verif-hooks` of crate iwes",
    "enable": "the harness crate /verif/mc depends on /repo/crates/iwes by path with features=[\"verif-hooks\"]; every check command rebuilds it from /repo's working tree",
@@ -107,6 +111,7 @@ manifest = {
    {"name": "squash", "path": "/verif/mc/src/engines/squash.rs", "serves_properties": ["C17"], "kind_free_text": "enumerates block-reference graphs x depths and compares the real squash with an independent recursive expander"},
    {"name": "symbols", "path": "/verif/mc/src/engines/symbols.rs", "serves_properties": ["C18"], "kind_free_text": "enumerates small libraries and checks outline paths / search / symbols against an independent outline + inclusion model"},
    {"name": "order", "path": "/verif/mc/src/engines/order.rs", "serves_properties": ["C16"], "kind_free_text": "enumerates insert permutations, rayon pool sizes, file creation orders and hash iteration orders (by closure) and compares canonical dumps"},
+   {"name": "fsfault", "path": "/verif/mc/src/engines/fsfault.rs", "serves_properties": ["C19"], "kind_free_text": "runs the real iwe binary on generated directory trees under strace fault injection at every syscall index and RLIMIT_FSIZE at every byte offset"},
    {"name": "docspace", "path": "/verif/mc/src/engines/docs.rs", "serves_properties": ["C01","C02","C03","C07"], "kind_free_text": "enumerates documents from a token alphabet / block grammar / inline grammar and runs the real formatter and server on each"},
  ],
  "checks": [],
